@@ -12,9 +12,10 @@ from sim.core import open_reader, Rejected, SimLivelock, Violation
 from sim.disk import SimDisk
 
 ID = "C07"
+VARY_ARGFORM = True  # integer call arguments also arrive as numpy integer scalars
 GUARD_KERNELS = True
 SHRINK_LISTS = ("ops", "faults", "pre", ("files", "nsamps"))
-SHRINK_SIMPLE = {"earlier": None}
+SHRINK_SIMPLE = {"earlier": None, "argform": "int", "stale": None}
 SHRINK_MIN = {"nchans": 1, "nbits": 1, "gulp": 1, "tfactor": 1, "ffactor": 1, "nsub": 1, "batch_size": 1, "chanpersub": 2, "nchans_b": 2}
 
 
@@ -135,6 +136,10 @@ def generate(rng, tier) -> dict:
                 except Rejected:
                     continue
                 break
+    # state left in the output directory by a previous run of the same script: the output names already
+    # exist and are LONGER than the products about to be written ("junk": arbitrary bytes under the fixed
+    # names; "rerun": the same transform over the whole observation, by a reader that no longer exists)
+    sc["stale"] = rng.choice([None, None, None, None, "junk", "rerun"])
     return sc
 
 
@@ -261,6 +266,29 @@ def run_earlier_session(sc, ctx, sim) -> None:
     ctx.probe("earlier-session")
 
 
+STALE_NAMES = ("out_inv.fil", "out_mask.fil", "out_samps.fil", "out_ds.fil", "out.subbands", "out_zdm.fil")
+
+
+def leave_stale_products(sc, ctx, sim, fs, outdir, nbytes) -> None:
+    """Context, not the call under test: what an earlier run left under the names about to be written."""
+    if sc["stale"] == "junk":
+        for nm in STALE_NAMES:
+            with open(os.path.join(outdir, nm), "wb") as fp:
+                fp.write(bytes((j * 37 + 11) & 0xFF for j in range(nbytes + 13)))
+    else:
+        sim.begin_op(-3, budget=1000000)
+        try:
+            r0 = open_reader("C07", fs.paths, allow_chdir=False)
+            T.call(sc["name"], r0, outdir, sc["params"], 16, 0, None)
+            r0._file.close()
+            del r0
+        except Violation:
+            raise
+        except Exception as ex:  # noqa: BLE001
+            ctx.observations["stale-rerun-raised:" + type(ex).__name__] += 1
+    ctx.probe("output-names-held-longer-files:" + sc["stale"])
+
+
 def blocks_of(ns, eff_gulp, skipback=0) -> int:
     if eff_gulp <= skipback:
         return 0
@@ -357,6 +385,10 @@ def execute(sc, ctx) -> None:
                     ctx.probe("multi-batch-extract")
             if name == "extract_chans" and nbits == 8:
                 ctx.probe("extract_chans:8bit-to-32bit-tim")
+            outdir = os.path.join(ctx.root, f"out{i}")
+            os.makedirs(outdir, exist_ok=True)
+            if sc.get("stale") and i == 0:
+                leave_stale_products(sc, ctx, sim, fs, outdir, N * nchans * 4 + 1024)
             sim.begin_op(i, budget=(3 if op.get("reentrant") else 1) * (16 * (nblk + 2) * (len(spec["nsamps"]) + 2) * max(1, len(exps)) + 64) + (2000 if name == "remove_zerodm" else 0) + 4 * ns)
             sim.free_space()
             fired0 = sum(ctx.faults.values())
@@ -381,8 +413,6 @@ def execute(sc, ctx) -> None:
 
                 ctx.probe("reentrant-call-inside-allocator")
             try:
-                outdir = os.path.join(ctx.root, f"out{i}")
-                os.makedirs(outdir, exist_ok=True)
                 outs = T.call(name, reader, outdir, params, gulp, start, nsamps, allocator=alloc)
             except SimLivelock as e:
                 raise Violation(f"C07/{name}/livelock/{eof}", str(e), info) from None
